@@ -1,8 +1,11 @@
 package props
 
 import (
+	"net/http"
+
 	"context"
 	"fmt"
+	"github.com/zitadel/saml/pkg/provider"
 	"math/rand"
 	"net/url"
 	"sort"
@@ -10,6 +13,7 @@ import (
 	"sync"
 	"sync/atomic"
 	"time"
+	"verif/harness/reply"
 
 	"verif/harness/core"
 	"verif/harness/env"
@@ -58,17 +62,21 @@ func faultKinds(op string) []string {
 	// context.DeadlineExceeded (the storage's own deadline, the request is alive) and an error that wraps
 	// context.Canceled (a closed connection pool)
 	if op == "GetMetadataSigningKey" || op == "GetResponseSigningKey" {
-		return []string{sim.FaultError, sim.FaultTimeout, sim.FaultTemporary, sim.FaultPoolClosed, sim.FaultNilRecord, sim.FaultKeyNoCert, sim.FaultCertNoKey, sim.FaultEmptyCert}
+		return append([]string{sim.FaultError, sim.FaultTimeout, sim.FaultTemporary, sim.FaultPoolClosed, sim.FaultNilRecord, sim.FaultKeyNoCert, sim.FaultCertNoKey, sim.FaultEmptyCert}, errTextKinds...)
 	}
 	switch op {
 	case "GetEntityByID":
 		// a failing lookup may still hand back what it had (a stale or half-checked record) beside its error
-		return []string{sim.FaultError, sim.FaultTimeout, sim.FaultTemporary, sim.FaultPoolClosed, sim.FaultRecordAndError, sim.FaultNilPtrError}
+		return append([]string{sim.FaultError, sim.FaultTimeout, sim.FaultTemporary, sim.FaultPoolClosed, sim.FaultRecordAndError, sim.FaultNilPtrError}, errTextKinds...)
 	case "AuthRequestByID":
-		return []string{sim.FaultError, sim.FaultTimeout, sim.FaultTemporary, sim.FaultPoolClosed, sim.FaultRecordAndError, sim.FaultTypedNil, sim.FaultNilPtrError}
+		return append([]string{sim.FaultError, sim.FaultTimeout, sim.FaultTemporary, sim.FaultPoolClosed, sim.FaultRecordAndError, sim.FaultTypedNil, sim.FaultNilPtrError}, errTextKinds...)
 	}
-	return []string{sim.FaultError, sim.FaultTimeout, sim.FaultTemporary, sim.FaultPoolClosed, sim.FaultNilPtrError}
+	return append([]string{sim.FaultError, sim.FaultTimeout, sim.FaultTemporary, sim.FaultPoolClosed, sim.FaultNilPtrError}, errTextKinds...)
 }
+
+// errTextKinds: returned errors whose text is unusual (long and multi-byte, full of format verbs, full of markup) -
+// the text ends up in status messages and log lines.
+var errTextKinds = []string{sim.FaultErrTextWide, sim.FaultErrTextVerbs, sim.FaultErrTextMarkup}
 
 func c10Scenarios() []c10Scenario {
 	mk := func(o env.Opts) *env.Env {
@@ -581,6 +589,7 @@ func init() {
 				{Name: "single_faults_after_good_request", N: len(scs), Fn: c10Single(scs, false, true)},
 				{Name: "unusable_algorithm", N: len(scs) * 5, Fn: c10Alg(scs)},
 				{Name: "concurrent_requests_during_a_fault", N: len(scs), Fn: c10Concurrent(scs)},
+				{Name: "readiness_probe_lists", N: 26, Fn: c10ProbeLists},
 			}
 			if c.Thorough {
 				wls = append(wls, core.Workload{Name: "fault_pairs", N: len(scs), Fn: c10Single(scs, true, false)})
@@ -591,4 +600,73 @@ func init() {
 		},
 		After: func(c *Ctx) { verify.Py.Close() },
 	})
+}
+
+// c10ProbeLists: the exported Readiness handler with lists of 1..4 probes of which a non-empty subset fails (the
+// storage's health probe through ReadyStorage, a probe of the integrator, a storage that is not there) - at every
+// position, in every combination: one failing probe makes the reply an error.
+func c10ProbeLists(r *core.Run, idx int, rng *rand.Rand) {
+	const wl = "readiness_probe_lists"
+	// idx enumerates (length, failing subset): 1+3+7+15 = 26
+	k, mask := 1, idx+1
+	for mask >= 1<<k {
+		mask -= (1 << k) - 1
+		k++
+	}
+	w := sim.NewWorld()
+	w.Plan = func(_, op string, _ int) string {
+		if op == "Health" {
+			return []string{sim.FaultError, sim.FaultTimeout, sim.FaultErrTextWide}[idx%3]
+		}
+		return ""
+	}
+	healthy := sim.NewWorld()
+	var probes []provider.ProbesFn
+	var shape []string
+	for j := 0; j < k; j++ {
+		if mask&(1<<j) != 0 {
+			switch (idx + j) % 3 {
+			case 0:
+				probes = append(probes, provider.ReadyStorage(w))
+				shape = append(shape, "storage_health_fails")
+			case 1:
+				probes = append(probes, func(context.Context) error { return sim.ErrInjected })
+				shape = append(shape, "integrator_probe_fails")
+			default:
+				probes = append(probes, provider.ReadyStorage(nil))
+				shape = append(shape, "no_storage")
+			}
+		} else {
+			if j%2 == 0 {
+				probes = append(probes, provider.ReadyStorage(healthy))
+			} else {
+				probes = append(probes, func(context.Context) error { return nil })
+			}
+			shape = append(shape, "ok")
+		}
+	}
+	class := "probe_list|" + strings.Join(shape, ",")
+	r.Eval(class)
+	r.Count("readiness_probe_lists_with_a_failing_probe", 1)
+	rec := reply.NewRecorder()
+	req, _ := http.NewRequestWithContext(sim.WithTag(context.Background(), fmt.Sprintf("probe%d", idx)), "GET", "/ready", nil)
+	panicked := ""
+	func() {
+		defer func() {
+			if p := recover(); p != nil {
+				panicked = fmt.Sprint(p)
+			}
+		}()
+		provider.Readiness(rec, req, probes...)
+	}()
+	d := reply.Decode(rec)
+	desc := map[string]any{"probes": shape}
+	obs := map[string]any{"status": d.Status, "body": clipS(string(d.Body), 300)}
+	if panicked != "" {
+		r.Violate(core.Violation{Clause: "panic", Class: class, Reason: panicked, Workload: wl, Index: idx, Case: desc, Observed: obs})
+		return
+	}
+	if d.Status < 500 {
+		r.Violate(core.Violation{Clause: "not_an_error_reply", Class: class, Reason: fmt.Sprintf("status %d although a readiness probe failed", d.Status), Workload: wl, Index: idx, Case: desc, Observed: obs})
+	}
 }
